@@ -185,6 +185,7 @@ func runFreshBinder(p *Program, r *RuleResult) {
 				root, _ := ctxRoot(mu.Map)
 				// look for a failed existence test of the same key on the same root context
 				found := false
+				var tests []ssa.Instruction
 				for f := range view.FactsAt(b) {
 					if f.k != factFalse {
 						continue
@@ -201,18 +202,50 @@ func runFreshBinder(p *Program, r *RuleResult) {
 						tr, _ := ctxRoot(t.Common().Args[0])
 						if tr == root && accessPath(t.Common().Args[1]) == key {
 							found = true
+							tests = append(tests, t)
 						}
 					case *ssa.Extract:
 						if lk, ok := t.Tuple.(*ssa.Lookup); ok && t.Index == 1 && lk.CommaOk {
 							tr, _ := ctxRoot(lk.X)
 							if tr == root && accessPath(lk.Index) == key {
 								found = true
+								tests = append(tests, lk)
 							}
 						}
 					}
 				}
 				if found {
-					r.add(name, construct, Holds, p.instrPos(mu), "dominated by a failed existence test of the same identifier")
+					// the test must see the context the binder is inserted into: nothing is
+					// consumed from that context between the test and the insertion
+					stale := ""
+					okTest := false
+					for _, t := range tests {
+						between := view.mayReachFrom(t, nil, func(in ssa.Instruction) bool {
+							c, ok := in.(ssa.CallInstruction)
+							if !ok || !(p.isConsumeFunc(c.Common().StaticCallee()) || looksLikeConsume(c.Common().StaticCallee())) {
+								return false
+							}
+							for _, a := range c.Common().Args {
+								if isCtxType(a.Type()) {
+									if cr, _ := ctxRoot(a); cr == root {
+										return len(view.mayReachFrom(in, nil, func(x ssa.Instruction) bool { return x == ssa.Instruction(mu) }, nil)) > 0
+									}
+								}
+							}
+							return false
+						}, func(in ssa.Instruction) bool { return in == ssa.Instruction(mu) })
+						if len(between) == 0 {
+							okTest = true
+						} else {
+							stale = p.instrPos(between[0])
+						}
+					}
+					if okTest && stale == "" {
+						r.add(name, construct, Holds, p.instrPos(mu), "dominated by a failed existence test of the same identifier on the context as it is at the insertion")
+					} else {
+						r.add(name, construct, Violated, p.instrPos(mu),
+							fmt.Sprintf("the freshness test of %s runs before a channel is consumed from the same context (%s): a program that rebinds the identifier of the channel the rule consumes is derivable (the old entry is gone when the binder is added) but is rejected as 'already defined'", strings.TrimSuffix(key, ".Ident"), stale))
+					}
 					continue
 				}
 				// the cut: binder freshness is established by the reuse dichotomy
